@@ -2,6 +2,8 @@ package main
 
 import (
 	"fmt"
+	"regexp"
+	"strconv"
 	"strings"
 )
 
@@ -126,6 +128,34 @@ func runAnalysisProp(prop string, r *Rng, n int, tier string) {
 			}
 		}
 	})
+	if prop == "C05" {
+		// tables that reached their final place through a history (moved between schemas, renamed, columns
+		// renamed): a query for all their columns still returns the table's model type
+		hist := []struct{ ddl, table, sel string }{
+			{"CREATE SCHEMA vault;\nALTER TABLE venues SET SCHEMA vault;\n", "venues", "vault.venues"},
+			{"CREATE SCHEMA staging;\nCREATE TABLE staging.items (id bigint NOT NULL, label text, qty int NOT NULL);\nALTER TABLE staging.items SET SCHEMA public;\n", "items", "items"},
+			{"ALTER TABLE archive.venues SET SCHEMA public;\n", "", ""}, // rejected: the name is taken
+			{"ALTER TABLE venues RENAME TO places;\n", "places", "places"},
+			{"ALTER TABLE authors RENAME COLUMN bio TO about;\n", "authors", "authors"},
+			{"ALTER TABLE archive.books RENAME TO tomes;\n", "tomes", "archive.tomes"},
+			{"ALTER TABLE venues RENAME TO places;\nALTER TABLE places SET SCHEMA archive;\n", "places", "archive.places"},
+		}
+		for hi, h := range hist {
+			if h.table == "" {
+				continue
+			}
+			forms := []struct{ cmd, sql string; n int }{
+				{":many", "SELECT * FROM " + h.sel, 0},
+				{":one", "SELECT * FROM " + h.sel + " WHERE id = $1", 1},
+				{":one", "DELETE FROM " + h.sel + " WHERE id = $1 RETURNING *", 1},
+				{":many", "SELECT t.* FROM " + h.sel + " t", 0},
+			}
+			for fi, f := range forms {
+				q := QStmt{Name: fmt.Sprintf("H%d_%d", hi, fi), Cmd: f.cmd, SQL: f.sql, NParams: f.n, Tags: []string{"history", "mustModel"}}
+				emitAnalysisFull(prop, fmt.Sprintf("hist-%d-%d", hi, fi), "postgresql", corpusPG+h.ddl, q, "", fi%2 == 0, nil, h.table)
+			}
+		}
+	}
 	for i := 0; i < n; i++ {
 		engine := "postgresql"
 		if r.Chance(20) {
@@ -176,6 +206,14 @@ func runAnalysisProp(prop string, r *Rng, n int, tier string) {
 			schema += ddl
 			mustModel = ""
 		}
+		if prop == "C03" && engine == "postgresql" && i%6 == 5 {
+			// the same statement with a hole in its placeholder numbers (repeats are kept): must be rejected
+			if sql, ok := sparsify(r, q.SQL); ok {
+				q.SQL = sql
+				q.Tags = append(q.Tags, "sparse-numbers")
+				q.Known = nil
+			}
+		}
 		if prop == "C10" && i%2 == 1 {
 			// single-name corruptions of the (valid) statement chosen above — plain, wide or extra shape, so that
 			// nested query levels are corrupted as often as outer ones — or a migration that removes the name
@@ -225,4 +263,32 @@ func emitAnalysisFull(prop, id, engine, schema string, q QStmt, prefix string, p
 		impl["go"] = goObservation(engine, schema, prefix+q.Text(), q.Name, prepared)
 	}
 	emit(Case{ID: id, Kind: "analysis", In: res.In, Impl: impl, Known: q.Known, Tags: append(q.Tags, engine)})
+}
+
+
+var dollarRe = regexp.MustCompile(`\$(\d+)`)
+
+// sparsify: every placeholder number >= g moves up by one or two (g = 1 makes the numbering start above 1)
+func sparsify(r *Rng, sql string) (string, bool) {
+	max := 0
+	for _, m := range dollarRe.FindAllStringSubmatch(sql, -1) {
+		if k, _ := strconv.Atoi(m[1]); k > max {
+			max = k
+		}
+	}
+	if max == 0 {
+		return sql, false
+	}
+	g := 1 + r.Intn(max)
+	if max > 1 && r.Chance(70) {
+		g = 2 + r.Intn(max-1) // keep $1 (and possibly its repeats) below the hole
+	}
+	by := 1 + r.Intn(2)
+	return dollarRe.ReplaceAllStringFunc(sql, func(m string) string {
+		k, _ := strconv.Atoi(m[1:])
+		if k >= g {
+			k += by
+		}
+		return "$" + strconv.Itoa(k)
+	}), true
 }
